@@ -16,7 +16,7 @@ CLASSES = ('response-missing', 'response-extra', 'response-unexpected', 'respons
            'pid-nonzero', 'absent-unit-answered', 'exec-unsolicited')
 
 PROFILE = {'invalid_rate': 0.15, 'opaque_rate': 0.1, 'unknown_unit_rate': 0.2, 'multi_rate': 0.45,
-           'broadcast_rate': 0.25, 'max_conns': 3, 'max_reqs': 8, 'pipeline_rate': 0.25}
+           'broadcast_rate': 0.25, 'max_conns': 3, 'max_reqs': 8, 'pipeline_rate': 0.25, 'cut_rate': 0.2}
 
 
 def generate(rng, tier, index):
